@@ -42,6 +42,31 @@ def one_call(call: list, state: dict) -> dict:
             r = {"ok": False, "err": classify_exc(e)}
     elif kind == "decompile":
         r = impl_decompile(call[1], call[2], call[3])
+    elif kind == "decompile_twice":
+        # convert() called twice on one decompiler object: the second answer is the one observed
+        from core import ops_to_impl, infos_to_impl, coroutines_for, DM_CONSTS
+        from explorerscript.ssb_converting.ssb_decompiler import ExplorerScriptSsbDecompiler
+        from explorerscript.ssb_converting import ssb_data_types as dt
+        try:
+            d = ExplorerScriptSsbDecompiler(infos_to_impl(call[2]), ops_to_impl(call[1]), coroutines_for(call[2], call[3]), PERF,
+                                            dt.DungeonModeConstants(*DM_CONSTS))
+            d.convert()
+            text, sm = d.convert()
+            r = {"ok": True, "text": text, "sm": sm_to_json(sm)}
+        except BaseException as e:  # noqa
+            if isinstance(e, (KeyboardInterrupt, SystemExit)):
+                raise
+            r = {"ok": False, "err": classify_exc(e)}
+    elif kind == "cli_read":
+        # the reader of the decompile command (explorerscript.cli.decompile.read_routines) on a JSON document
+        try:
+            from explorerscript.cli.decompile import read_routines
+            infos, coros, rops = read_routines(call[1]["routines"])
+            r = {"ok": True, "ops": ops_from_impl(rops), "infos": infos_from_impl(infos)}
+        except BaseException as e:  # noqa
+            if isinstance(e, (KeyboardInterrupt, SystemExit)):
+                raise
+            r = {"ok": False, "err": classify_exc(e)}
     else:
         r = impl_ssbs_decompile(call[1], call[2], call[3])
     if state.get("gc", True):
@@ -172,6 +197,16 @@ def main() -> None:
         if t.lstrip().startswith("macro") and "\ndef " in t:
             rest = t[t.index("\ndef ") + 1:]
             histories.append([["compile_reuse", t], ["compile_reuse", rest], ["compile_reuse", t]])
+    # one decompiler object converting twice; the decompile command's reader used for several documents
+    docs = [{"routines": [{"type": "GENERIC", "ops": [{"opcode": "BranchDebug", "params": [1, 3]}, {"opcode": "a", "params": []},
+                                                        {"opcode": "b", "params": [5]}, {"opcode": "End", "params": []}]},
+                          {"type": "COROUTINE", "name": "C", "ops": [{"opcode": "c", "params": []}, {"opcode": "Jump", "params": [3]}]}]},
+            {"routines": [{"type": "ACTOR", "target_id": 2, "ops": [{"opcode": "x", "params": []}, {"opcode": "Return", "params": []}]}]}]
+    for d in docs:
+        key[json.dumps(["cli_read", d], sort_keys=True)] = _fresh(["cli_read", d])
+    histories.append([["cli_read", docs[0]], ["cli_read", docs[0]], ["cli_read", docs[1]], ["cli_read", docs[0]]])
+    for c in [c for c in pool_calls if c[0] == "decompile"][: (30 if q else 300)]:
+        histories.append([["decompile_twice", *copy.deepcopy(c[1:])], copy.deepcopy(c)])
     webs = [c for c in pool_calls if c[0] == "decompile"]
     for h in range(30 if q else 300):
         hs = [copy.deepcopy(r.choice(hostile)) for _ in range(r.randint(1, 3))] if hostile else []
@@ -193,9 +228,11 @@ def main() -> None:
             cc = copy.deepcopy(c)
             if cc[0] == "compile_reuse":
                 cc[0] = "compile"
+            if cc[0] == "decompile_twice":
+                cc[0] = "decompile"
             want = key[json.dumps(cc, sort_keys=True)]
             want_cmp = {k: v for k, v in want.items() if k in o or k in ("ok",)}
-            if c[0] == "compile_reuse":
+            if c[0] in ("compile_reuse", "decompile_twice"):
                 want_cmp = {k: v for k, v in want_cmp.items() if k in o}
             if o != want_cmp:
                 part = next((k for k in ("ok", "err", "ops", "text", "sm", "infos", "coros") if o.get(k) != want_cmp.get(k)), "?")
